@@ -127,6 +127,7 @@ class Fn:
         self.summaries = summaries or {}       # callee -> {(param index, field suffix)}: the callee leaves a fresh block there
         self.hands_over = set()                # (param index, field suffix) this function fills with a block it allocated
         self.passthru = {}                     # callee -> index of the pointer parameter it returns (possibly reallocated)
+        self.consumes = {}                     # callee -> indexes of pointer parameters it frees on every path
         self.blocks = sa.blocks_by_id(fn)
         self.seen = set()
         self.paramids = {p["id"] for p in fn["params"]}
@@ -339,6 +340,18 @@ class Fn:
                         st.held[site] = ("block that %s left in %s%s at line %d" % (c, v["name"], sfx, line), line)
                         st.names[ak + sfx] = frozenset([site])
                         self.note(line, "received:" + suffix, "proved")
+        if c in self.consumes and c != self.fn["name"]:
+            for idx in self.consumes[c]:
+                if idx < len(args):
+                    pk = key(args[idx]) if isinstance(args[idx], dict) else None
+                    a_ = args[idx]
+                    while pk is None and isinstance(a_, dict) and a_.get("k") == "cast":
+                        a_ = a_["e"]
+                        pk = key(a_)
+                    if pk:
+                        st.bind.pop(pk, None)
+                        st.origin.pop(pk, None)
+                        self.release(st, pk)
         if c in GETSTR and args:
             a0 = args[0]
             while isinstance(a0, dict) and a0.get("k") == "cast":
@@ -691,6 +704,10 @@ def passthrough_summaries(ex):
                         r = n.get("e")
                         while isinstance(r, dict) and r.get("k") in ("cast", "paren"):
                             r = r["e"]
+                        if isinstance(r, dict) and r.get("k") == "call" and r.get("callee") is None and akind(r) == "realloc" and r.get("args"):
+                            r = r["args"][0]                    # return reallocate (p, old, new): the block that was given, possibly moved
+                            while isinstance(r, dict) and r.get("k") in ("cast", "paren"):
+                                r = r["e"]
                         rets.append(r["id"] if isinstance(r, dict) and r.get("k") == "var" else None)
                     if n.get("k") == "binop" and n["op"].endswith("=") and n["op"] not in ("==", "!=", "<=", ">=") and n["l"].get("k") == "var" \
                             and n["l"]["id"] in pids:
@@ -705,6 +722,55 @@ def passthrough_summaries(ex):
                 sa.walk(el["e"], f)
         if rets and len(set(rets)) == 1 and rets[0] in pids and rets[0] not in bad and "*" in fn.get("ret", "*"):
             out[fn["name"]] = pids[rets[0]]
+    return out
+
+
+def consume_summaries(ex):
+    """static helpers that release a block they are given: on EVERY path to their exit the free function is called on pointer parameter k
+    (doprnt_gmp_str (funs, data, param, gmp_str) prints the string and frees it).  A caller that hands an owned block to such a helper no
+    longer owns it."""
+    out = {}
+    for path, fn in ex.functions():
+        if sa.is_foreign_fixture(path, FIXTURE) or not fn.get("static"):
+            continue
+        pids = {p_["id"]: i for i, p_ in enumerate(fn["params"]) if "*" in p_.get("ct", "")}
+        if not pids:
+            continue
+        blocks = sa.blocks_by_id(fn)
+        frees = collections.defaultdict(set)          # block id -> params freed in it
+        reassigned = set()
+        for b in fn["blocks"]:
+            for el in b["elems"]:
+                def f(n, b=b):
+                    if n.get("k") == "call" and n.get("callee") is None and akind(n) == "free" and n.get("args"):
+                        a_ = n["args"][0]
+                        while isinstance(a_, dict) and a_.get("k") in ("cast", "paren"):
+                            a_ = a_["e"]
+                        if isinstance(a_, dict) and a_.get("k") == "var" and a_["id"] in pids:
+                            frees[b["id"]].add(a_["id"])
+                    if n.get("k") == "binop" and n["op"].endswith("=") and n["op"] not in ("==", "!=", "<=", ">=") and n["l"].get("k") == "var" \
+                            and n["l"]["id"] in pids:
+                        reassigned.add(n["l"]["id"])
+                sa.walk(el["e"], f)
+        for pid_, idx in pids.items():
+            if pid_ in reassigned or not any(pid_ in v for v in frees.values()):
+                continue
+            # must-pass-through: can the exit be reached from the entry without a block that frees the parameter?
+            seen, todo, escapes = set(), [fn["entry"]], False
+            while todo and not escapes:
+                cur = todo.pop()
+                if cur in seen or pid_ in frees.get(cur, ()):
+                    continue
+                seen.add(cur)
+                if blocks[cur].get("noreturn"):
+                    continue
+                for s_ in blocks[cur]["succs"]:
+                    if s_ == fn["exit"]:
+                        escapes = True
+                    elif isinstance(s_, int):
+                        todo.append(s_)
+            if not escapes:
+                out.setdefault(fn["name"], set()).add(idx)
     return out
 
 
@@ -732,6 +798,8 @@ def run(prop="C04", tier="quick"):
     res["stats"]["handover_summaries"] = len(summaries)
     passthru = passthrough_summaries(ex)
     res["stats"]["passthrough_summaries"] = len(passthru)
+    consumes = consume_summaries(ex)
+    res["stats"]["consume_summaries"] = len(consumes)
     for path, fn in ex.functions():
         if sa.is_foreign_fixture(path, FIXTURE):
             continue
@@ -748,6 +816,7 @@ def run(prop="C04", tier="quick"):
         out = []
         a = Fn(fn, prop, out, res["stats"], summaries)
         a.passthru = passthru
+        a.consumes = consumes
         a.run()
         res["stats"]["functions"] += 1
         for (line, kind), v in a.verdict.items():
@@ -770,7 +839,8 @@ def run(prop="C04", tier="quick"):
            "fix_leak_block": ("R-ALLOC.pair", "leak:"), "fix_alloc_good": None,
            "fix_alloc_null_sentinel": None, "fix_alloc_null_sentinel_bad": ("R-ALLOC.pair", "leak:"),
            "fix_handover_leak": ("R-ALLOC.pair", "leak:"), "fix_handover_good": None,
-           "fix_passthru_good": None, "fix_passthru_bad": ("R-ALLOC.pair", "leak:")}
+           "fix_passthru_good": None, "fix_passthru_bad": ("R-ALLOC.pair", "leak:"),
+           "fix_consume_good": None, "fix_consume_bad": ("R-ALLOC.pair", "leak:")}
     for fname, e2 in exp.items():
         got = [(f.rule, f.signature) for f in fx if f.function == fname]
         if e2 is None and got:
